@@ -181,7 +181,7 @@ void exercise(const std::string& path, size_t image_size, int mode, bool verify,
             for (int q = 0; q < nb; q++) {
                 carquet_row_batch_t* b = nullptr;
                 carquet_status_t st = cq::batch_reader_next(br, &b);
-                if (st != CARQUET_OK || !b) { if (b) cq::row_batch_free(b); break; }
+                if (st != CARQUET_OK || !b) { if (b) cq::row_batch_free(b); if (r.below(2)) break; SIM_COUNT("probe.batch_next_called_again_after_error"); continue; }   // calling next() again after an error is a valid call
                 int64_t nr = carquet_row_batch_num_rows(b); int32_t nc = carquet_row_batch_num_columns(b);
                 for (int32_t ci = -1; ci <= nc; ci++) {
                     const void* data = nullptr; const uint8_t* bm = nullptr; int64_t nv = 0;
